@@ -178,6 +178,8 @@ pub fn run(ctx: &mut Ctx) {
         }
         "C13" => {
             fam::exhaustive(ctx, "handle", &cfgs, l, true, &fam::handle_ops);
+            // the i-th iterator item is the i-th element, also when reached by nth / nth_back / after clones
+            fam::exhaustive(ctx, "iter", &cfgs, l.min(4), false, &fam::iter_ops);
         }
         "C17" => {
             cfgs.retain(|c| c.mem == hvcore::rigapi::MemKind::Heap);
